@@ -118,8 +118,7 @@ impl<R: Read + Seek> ReadBox<&mut R> for Mp4aBox {
                 // Typically contains frma, mp4a, esds, and a terminator atom
             } else {
                 // Skip boxes
-                let skip_to = current + s;
-                skip_bytes_to(reader, skip_to)?;
+                skip_box(reader, s)?;
             }
         }
 
